@@ -286,6 +286,15 @@ def _run(spec, world, rng, r, base):
     liar_log = []
     cmd_send.reactor = r       # (--verify pauses with the module-level reactor, which is the running reactor in real use)
     sender = cmd_send.Sender(sa, r)           # exactly what cmd_send.send() does
+    # "reports success" is the command's exit status: in every second case the outcome goes through the CLI's own
+    # error-to-exit-status mapping (cli._dispatch_command), as `wormhole send` / `wormhole receive` do
+    via_dispatch = spec["seed"] % 2 == 0
+    from wormhole.cli import cli as cli_mod
+
+    def go_of(obj, cfg_):
+        if via_dispatch:
+            return cli_mod._dispatch_command(r, cfg_, obj.go)
+        return obj.go()
     receiver = None
     late = {}
     late_d = {}
@@ -295,7 +304,7 @@ def _run(spec, world, rng, r, base):
         rs = Result(late_d["sender"])
         late["sender"] = start_sender_when
     else:
-        rs = Result(sender.go())
+        rs = Result(go_of(sender, sa))
     if spec["kind"] == "liar":
         rr = Result(lying_receiver(world, code, spec["lie"], liar_log))
     elif start_receiver_when is not None:
@@ -305,7 +314,7 @@ def _run(spec, world, rng, r, base):
         late["receiver"] = start_receiver_when
     else:
         receiver = cmd_receive.Receiver(ra, r)    # exactly what cmd_receive.receive() does
-        rr = Result(receiver.go())
+        rr = Result(go_of(receiver, ra))
     exited = set()
 
     def process_exit(which):
@@ -349,10 +358,10 @@ def _run(spec, world, rng, r, base):
                 del late[who_]
                 if who_ == "receiver":
                     ra.code = m_.group(1)
-                    receiver.go().chainDeferred(late_d["receiver"])
+                    go_of(receiver, ra).chainDeferred(late_d["receiver"])
                 else:
                     sa.code = m_.group(1)
-                    sender.go().chainDeferred(late_d["sender"])
+                    go_of(sender, sa).chainDeferred(late_d["sender"])
                 allocated.append(m_.group(1))
         if rs.done:
             process_exit("s")
@@ -465,7 +474,7 @@ def _run(spec, world, rng, r, base):
             "counters": {"clean_success": int(clean and so == "success" and ro == "success"),
                          "data_faults_fired": int(kind == "datafault" and fired), "ack_faults_fired": int(kind == "ackfault" and fired),
                          "liar_cases": int(kind == "liar" and bool(liar_log)), "grow_cases": int(kind == "grow" and bool(grown)), "stale_tmp_cases": int(bool(desc.get("stale_tmp"))), "unsendable_entries_skipped": len(desc.get("unsendable", [])), "clean_failed": int(bool(clean_failure)), "hangs": int(bool(hang)), "faults_not_reached": int(kind in ("datafault", "ackfault") and not fired),
-                         "payload_" + payload: 1, **({"dest_%s_%s_%s" % (spec["dest"], payload, "accept-file" if spec["accept"] else "prompt"): int(so == "success" and ro == "success")} if spec.get("dest") else {}), **({"mode_" + spec["mode"]: int(so == "success" and ro == "success") if spec["mode"] != "verify-no" else int("Error" in so)} if spec.get("mode") else {}), "via_relay": int(any(l.tags.get("port") == 4001 for l in r.links)),
+                         "payload_" + payload: 1, "outcomes_through_the_cli_exit_status_mapping": int(via_dispatch), **({"dest_%s_%s_%s" % (spec["dest"], payload, "accept-file" if spec["accept"] else "prompt"): int(so == "success" and ro == "success")} if spec.get("dest") else {}), **({"mode_" + spec["mode"]: int(so == "success" and ro == "success") if spec["mode"] != "verify-no" else int(so not in ("success", "pending"))} if spec.get("mode") else {}), "via_relay": int(any(l.tags.get("port") == 4001 for l in r.links)),
                          "steps": world.step, "bytes_payload": desc.get("size", 0)},
             "sets": {"clean_transfers_that_failed": [clean_failure] if clean_failure else [],
                      "hangs_observed": [hang] if hang else []},
